@@ -298,9 +298,10 @@ def customC (sc : Sc) (cl : Clip) (x y : List Nat) : Outcome :=
 
 /-- `I32Env sc cl x y B`: `B ≥ 1` bounds the absolute value of the substitution scores that occur and of both gap
 penalties; gap and clip penalties are `≤ 0`, the clip penalties are `≥ MIN_SCORE` (any value in between, not only
-`MIN_SCORE` or small); and `(max(m, n) + 1) · B ≤ 2³¹ + MIN_SCORE` (= 1 288 490 189 in the pinned tree).  The bound is exact: with `yclip_prefix = MIN_SCORE`, `gap_open = gap_extend = −B` the sum `yclip_prefix + gap_open + gap_extend * m` of
-row `m` is `MIN_SCORE − (m + 1)·B` (the real code panics there for the first `B` beyond the bound: docs/notes/C01.md).
-Decidable. -/
+`MIN_SCORE` or small); and `(max(m, n) + 1) · B ≤ 2³¹ + MIN_SCORE` (= 1 288 490 189 in the pinned tree).  The bound is
+exact: with `yclip_prefix = MIN_SCORE`, `gap_open = gap_extend = −B` the sum `yclip_prefix + gap_open + gap_extend * m` of
+row `m` is `MIN_SCORE − (m + 1)·B` (the real code panics there for the first `B` beyond the bound: docs/notes/C01.md), and
+with `xclip_prefix = yclip_prefix = MIN_SCORE` the `xclip_score` of column `n` is `MIN_SCORE − (n + 1)·B`.  Decidable. -/
 structure I32Env (sc : Sc) (cl : Clip) (x y : List Nat) (B : Int) : Prop where
   B1 : 1 ≤ B
   wlo : ∀ a ∈ x, ∀ b ∈ y, -B ≤ sc.w a b
